@@ -27,10 +27,24 @@ of its own).  After the end the controller may be started again: a new Gateway o
 a session ended is restored by the next start, PROVIDED the context statement did not report a failure of its own (the
 final save fails when the volume is away: the statement then ends with the persistence write error and the application
 knows that the file is stale - nothing is promised about ids registered since the last save that succeeded) and nobody
-else replaced, deleted or damaged the file in between.  The oracle keeps, next to what the current object has had
-registered, what the library's own successful writes have put into the file (`on_file`): dropped when someone else
-touches the file, replaced whenever the library writes the file without reporting an error, and added to what must not
-be handed out again whenever an object loads its file successfully.
+else put another registry there in between.  The oracle keeps, next to what the current object has had
+registered, what the library's own successful writes have put into the file (`on_file`): replaced whenever the library
+writes the file without reporting an error, and added to what must not be handed out again whenever an object loads its
+file successfully.
+
+What `on_file` is worth after the file was touched depends on what the file IS when a session starts on it, not on who
+touched it (the library cannot see who; the property does not say).  A file that loads in full, an empty file and no
+file at all ARE the persisted registry as they stand (C14: a missing file is created, an empty one is an empty registry):
+when someone else put that there - a backup, an edited file, nothing - the earlier content is not promised any more and
+`on_file` is dropped (this includes a file cut down to nothing: the hole of the truncating save, C15's known finding).
+A file that was DAMAGED IN PLACE - cut short at any offset, bytes spoilt, text inserted, wrapped into another shape, one
+record made invalid, the path unreadable for a while - is nobody's other registry: it is exactly what an interrupted save
+of the library itself (C15: `open(path, "w")`, then the write) or a failing medium leaves of the only durable copy of the
+ids that were handed out.  `on_file` stands.  The library may refuse to start on such a file (the context statement
+raises the persistence read error: nothing is handed out, the application is told, nothing is judged); if a load reports
+success on it, the ids handed out afterwards must still differ from what the library had saved there ("two requests never
+receive the same id") and from the id of every well-formed record the file still holds, wherever it stands ("differs from
+every id ... restored from persistence": what a load that reports success has restored is what the file holds).
 
 Model: sessions, volumes and files are not operations of the gateway model.  Its state (registry, version,
 buffers) is unaffected by enter/exit, and what a *successful* load does to the registry is expressed with the
@@ -99,6 +113,18 @@ ENDS = ("clean", "drop", "cancel", "cancel-app") + tuple("raise:" + n for n in F
 # spec: a list of node ids (a well-formed file with these nodes, in this order) | None (no file)
 #       | {"bad": "garbage" | "list" | "entry"} (a file that cannot be loaded, nothing valid in it)
 #       | {"half": [ids]} (well-formed entries followed by one that is not)
+#       | {"half": [ids], "at": k} (the entry that is not well-formed stands before the k-th well-formed one)
+#       | {"damage": kind, ...}: ("file", ...) only - the file AS IT STANDS is damaged in place, the way an interrupted
+#         save of the library itself, a failing medium or a careless tool leaves it (no other registry is put there):
+#           {"damage": "cut", "at": a}        cut short at offset a (a strict prefix of what was there; a = 0: emptied)
+#           {"damage": "bytes", "at": a}      two bytes at offset a overwritten with bytes that are not UTF-8
+#           {"damage": "insert", "at": a, "what": "text" | "deep"}   foreign text / a deep nesting inserted at offset a
+#           {"damage": "wrap"}                the object wrapped into an array (JSON of the wrong shape, every record there)
+#           {"damage": "entry", "which": j, "how": h}   the j-th node record made invalid (ENTRY_DAMAGE), the others kept
+#           {"damage": "unreadable", "as": "dir" | "loop"}   the path cannot be read for the time being (the file is kept
+#                                             aside; a directory / a symbolic link onto itself stands in its place)
+#           {"damage": "heal"}                the path can be read again (the file kept aside is back, untouched)
+#         offsets: an int (negative: from the end) or a float (fraction of the length)
 
 
 @dataclass
@@ -132,34 +158,142 @@ def spec_text(spec) -> str | None:
     if isinstance(spec, (list, tuple)):
         return json.dumps({str(n): node_entry(n) for n in spec}, indent=2)
     if "half" in spec:
-        data = {str(n): node_entry(n) for n in spec["half"]}
+        ids = list(spec["half"])
+        at = spec.get("at", len(ids))
+        data = {str(n): node_entry(n) for n in ids[:at]}
         data["broken"] = {"node_id": "not a number", "node_type": 17, "protocol_version": "2.0"}
+        data.update({str(n): node_entry(n) for n in ids[at:]})
         return json.dumps(data, indent=2)
     return {"garbage": "{\"1\": {\"node_id\": 1, \"node_ty", "list": "[1, 2, 3]", "entry": "{\"1\": 5}"}[spec["bad"]]
 
 
+def _remove(path: str) -> None:
+    """Whatever stands at the path (a file, a symbolic link, a directory) is removed."""
+    if os.path.islink(path) or os.path.isfile(path):
+        os.unlink(path)
+    elif os.path.isdir(path):
+        shutil.rmtree(path)
+
+
 def write_spec(path: str, spec) -> None:
+    """Someone else puts a file (or no file) there: whatever stood at the path, or was kept aside, is gone."""
     text = spec_text(spec)
+    _remove(path)
+    _remove(path + ".aside")
     if text is None:
-        if os.path.exists(path):
-            os.unlink(path)
         return
     os.makedirs(os.path.dirname(path), exist_ok=True)
     with open(path, "w", encoding="utf-8") as f:
         f.write(text)
 
 
+# the ways one node record of a file is made invalid: what stands in its place / what is done to it
+ENTRY_DAMAGE = ("number", "null", "list", "id", "missing", "extra", "pv")
+NODE_FIELDS = {"node_id", "node_type", "protocol_version", "children", "sketch_name", "sketch_version", "battery_level",
+               "heartbeat", "sleeping", "sensor_id", "type"}
+
+
+def _offset(at, n: int) -> int:
+    k = int(n * at) if isinstance(at, float) else (at if at >= 0 else n + at)
+    return max(0, min(n, k))
+
+
+def damage_file(path: str, spec) -> None:
+    """The file as it stands is damaged in place (see the spec table above).  Nothing happens when there is no file."""
+    kind, aside = spec["damage"], path + ".aside"
+    if kind == "heal":
+        if os.path.isfile(aside):
+            _remove(path)
+            os.rename(aside, path)
+        return
+    if os.path.islink(path) or not os.path.isfile(path):
+        return
+    if kind == "unreadable":
+        os.rename(path, aside)
+        if spec.get("as", "dir") == "dir":
+            os.mkdir(path)
+        else:
+            os.symlink(os.path.basename(path), path)
+        return
+    with open(path, "rb") as f:
+        data = f.read()
+    k = _offset(spec.get("at", 0.5), len(data))
+    if kind == "cut":
+        data = data[:k]
+    elif kind == "bytes":
+        data = data[:k] + b"\xff\xfe" + data[k + 2:]
+    elif kind == "insert":
+        data = data[:k] + {"text": b"bad content", "deep": b"[" * 5000}[spec.get("what", "text")] + data[k:]
+    elif kind == "wrap":
+        data = b"[" + data + b"]"
+    elif kind == "entry":
+        try:
+            obj = json.loads(data.decode("utf-8") or "{}")
+        except ValueError:
+            return
+        if not isinstance(obj, dict) or not obj:
+            return
+        key = list(obj)[spec.get("which", 0) % len(obj)]
+        rec, how = obj[key], spec.get("how", "id")
+        if how not in ENTRY_DAMAGE:
+            raise ValueError(f"unknown way to damage a node record: {how!r}")
+        if how in ("number", "null", "list") or not isinstance(rec, dict):
+            obj[key] = {"number": 5, "null": None, "list": []}.get(how, 5)
+        elif how == "id":
+            rec["node_id"] = "not a number"
+        elif how == "missing":
+            rec.pop("node_type", None)
+            rec.pop("type", None)
+        elif how == "extra":
+            rec["colour"] = "red"
+        elif how == "pv":
+            rec["protocol_version"] = None
+        data = json.dumps(obj, indent=2).encode("utf-8")
+    else:
+        raise ValueError(f"unknown damage {spec!r}")
+    with open(path, "wb") as f:
+        f.write(data)
+
+
+def _read_text(path: str):
+    """(status, text): "missing" | "unreadable" (the path cannot be read, or holds bytes that are no text) | "text"."""
+    try:
+        with open(path, encoding="utf-8") as f:
+            return "text", f.read()
+    except FileNotFoundError:
+        return "missing", ""
+    except (OSError, ValueError):
+        return "unreadable", ""
+
+
+def _entry(v):
+    """One node record as the harness reads it: ("ok", entry) | ("bad", None) | ("unknown", id or None) - well-formed as
+    far as the harness can tell, but the gnode translation below cannot carry it."""
+    if not isinstance(v, dict) or set(v) - NODE_FIELDS:
+        return "bad", None
+    nid = v.get("node_id", v.get("sensor_id"))
+    ntype = v.get("node_type", v.get("type"))
+    if type(nid) is not int or not 0 <= nid <= 255 or type(ntype) is not int or not isinstance(v.get("protocol_version"), str):
+        return "bad", None
+    if v.get("children"):
+        return "unknown", nid              # not produced here; the gnode translation below does not carry children
+    e = {"id": nid, "type": ntype, "pv": v["protocol_version"], "sn": v.get("sketch_name") or "",
+         "sv": v.get("sketch_version") or "", "bat": v.get("battery_level", 0), "hb": v.get("heartbeat", 0),
+         "sleeping": bool(v.get("sleeping", False))}
+    if type(e["bat"]) is not int or type(e["hb"]) is not int or not isinstance(e["sn"], str) or not isinstance(e["sv"], str):
+        # (the file may be one the library's own save wrote from whatever its registry held: an entry the gnode
+        # translation cannot carry is not a crash of the harness - the life is judged by the oracle from there)
+        return "unknown", nid
+    return "ok", e
+
+
 def read_store(path: str):
     """What a node file holds, read by the harness itself (not with the library): (status, entries).
     status: "missing" | "ok" (every entry well-formed) | "bad" (entries = the well-formed entries before the first
-    that is not) | "unknown"."""
-    try:
-        with open(path, encoding="utf-8") as f:
-            text = f.read()
-    except FileNotFoundError:
-        return "missing", []
-    except (OSError, ValueError):
-        return "unknown", []
+    that is not) | "unreadable" (the path cannot be read at all: nothing can be restored from it) | "unknown"."""
+    status, text = _read_text(path)
+    if status != "text":
+        return status, []
     try:
         data = json.loads(text or "{}")
     except (ValueError, RecursionError):
@@ -168,23 +302,33 @@ def read_store(path: str):
         return "bad", []
     entries = []
     for v in data.values():
-        if not isinstance(v, dict):
-            return "bad", entries
-        nid = v.get("node_id", v.get("sensor_id"))
-        ntype = v.get("node_type", v.get("type"))
-        if type(nid) is not int or not 0 <= nid <= 255 or type(ntype) is not int or not isinstance(v.get("protocol_version"), str):
-            return "bad", entries
-        if v.get("children"):
-            return "unknown", entries          # not produced here; the gnode translation below does not carry children
-        e = {"id": nid, "type": ntype, "pv": v["protocol_version"], "sn": v.get("sketch_name") or "",
-             "sv": v.get("sketch_version") or "", "bat": v.get("battery_level", 0), "hb": v.get("heartbeat", 0),
-             "sleeping": bool(v.get("sleeping", False))}
-        if type(e["bat"]) is not int or type(e["hb"]) is not int or not isinstance(e["sn"], str) or not isinstance(e["sv"], str):
-            # (the file may be one the library's own save wrote from whatever its registry held: an entry the gnode
-            # translation cannot carry is not a crash of the harness - the life is judged by the oracle from there)
-            return "unknown", entries
+        st, e = _entry(v)
+        if st != "ok":
+            return st, entries
         entries.append(e)
     return "ok", entries
+
+
+def held_ids(path: str) -> list:
+    """The ids of ALL node records of the file that are well-formed, wherever they stand (also behind a record that is
+    not): what the file holds, whether or not a load gets that far.  Nothing for a file that is no JSON object."""
+    status, text = _read_text(path)
+    if status != "text":
+        return []
+    try:
+        data = json.loads(text or "{}")
+    except (ValueError, RecursionError):
+        return []
+    if not isinstance(data, dict):
+        return []
+    out = []
+    for v in data.values():
+        st, e = _entry(v)
+        if st == "ok":
+            out.append(e["id"])
+        elif st == "unknown" and e is not None:
+            out.append(e)
+    return out
 
 
 # ---- running a life on the implementation ------------------------------------------------------
@@ -203,7 +347,7 @@ async def _settle(g, path: str) -> None:
             status, entries = read_store(path)
             if status == "ok" and {e["id"] for e in entries} == set(g.nodes):
                 return
-            if i >= 60 and not os.path.isdir(os.path.dirname(path)):
+            if i >= 60 and (status == "unreadable" or not os.path.isdir(os.path.dirname(path))):
                 return
 
 
@@ -372,7 +516,7 @@ async def _run_life(life: Life, root: str):
                 if sess is not None:
                     o["skipped"], o["out"] = True, "skipped (already inside)"
                 else:
-                    o["file"] = read_store(path)
+                    o["file"], o["held"] = read_store(path), held_ids(path)
                     o["load_ok"] = False
                     s = Session(g, tr)
                     try:
@@ -402,17 +546,21 @@ async def _run_life(life: Life, root: str):
                 if os.path.isdir(off):
                     os.rename(off, vol)
             elif kind == "file":
-                write_spec(where(), op[1])
+                if isinstance(op[1], dict) and "damage" in op[1]:
+                    damage_file(where(), op[1])
+                else:
+                    write_spec(where(), op[1])
+                o["file_after"] = read_store(where())[0]     # what the file is now, as the harness reads it
             elif kind == "load":
                 n_other += 1
                 p = os.path.join(other, f"nodes-{n_other}.json")
                 write_spec(p, op[1])
-                o["file"] = read_store(p)
+                o["file"], o["held"] = read_store(p), held_ids(p)
                 o["load_ok"] = False
                 await g.persistence.load(p)
                 o["load_ok"] = True
             elif kind == "reload":
-                o["file"] = read_store(path)
+                o["file"], o["held"] = read_store(path), held_ids(path)
                 o["load_ok"] = False
                 await g.persistence.load()
                 o["load_ok"] = True
@@ -461,7 +609,10 @@ def _describe(life: Life, obs, upto: int) -> list[str]:
         if op[0] in ("file", "load") or (op[0] == "exit" and len(op) > 1):
             what += f" {json.dumps(op[1])}"
         if "file" in o:
-            what += f" [file read: {o['file'][0]}, ids {[e['id'] for e in o['file'][1]]}]"
+            what += f" [file read: {o['file'][0]}, ids {[e['id'] for e in o['file'][1]]}" + (
+                f", well-formed records in it: {sorted(o['held'])}" if o["file"][0] == "bad" and o.get("held") else "") + "]"
+        if "file_after" in o:
+            what += f" [the file is now: {o['file_after']}]"
         wr = [w[0] for w in o["writes"]]
         end = o.get("ended")
         out.append(f"{i}: {what} -> {o['out']}" + (f" writes={wr}" if wr else "") + (
@@ -476,26 +627,49 @@ def judge(corr: Corr, life: Life, obs) -> bool:
     handed: list = []        # every id handed out so far that must not be handed out again, in order
     earlier: set = set()     # those of `handed` that an earlier gateway object handed out (known through the file)
     saved: set = set()       # those of `ever` known only through what the library saved in the file
+    held: set = set()        # ids of well-formed records of a file that could not be loaded in full, on which a load of
+    #                          the current object nevertheless reported success
     on_file = None           # (ids, handed): what the library's own successful writes have put into the persistence
-    #                          file and nobody else has touched since; None: nothing can be said about the file
+    #                          file and nobody else has replaced since; None: nothing can be said about the file
+    spoilt = blocked = False  # that file has been damaged in place since (its content / it cannot be read for the time
+    #                           being) and still is what the library wrote, damaged
 
     def written():
         """The library has written the registry to the file and reported no failure."""
-        nonlocal on_file
-        on_file = (set(ever), list(handed))
+        nonlocal on_file, spoilt, blocked
+        on_file, spoilt, blocked = (set(ever), list(handed)), False, False
 
     for i, (op, o) in enumerate(zip(life.ops, obs)):
         before, after = set(o["before"]), set(o["after"])
         if op[0] == "restart" and not o["skipped"]:
             # a new gateway object: it has had nothing registered and has handed out nothing; what the old one knew
             # lives on in the file only
-            ever, handed, earlier, saved = set(), [], set(), set()
+            ever, handed, earlier, saved, held = set(), [], set(), set(), set()
             continue
         if op[0] == "file":
-            on_file = None                               # replaced, deleted or damaged by someone else
+            # What counts is what the file IS when a session starts on it, not who touched it.  A file that can be loaded
+            # in full, an empty file and no file are, as they stand, the persisted registry (C14): when someone else put
+            # that there, nothing is promised about what the file held before.  A file damaged in place (cut short, bytes
+            # or one record spoilt, unreadable for the time being) is no other registry: it is what an interrupted save of
+            # the library itself or a failing medium leaves of the registry the library wrote, and a load that reports
+            # success on it is held to what the library wrote there.
+            spec = op[1]
+            in_place = isinstance(spec, dict) and "damage" in spec
+            if in_place and spec["damage"] in ("unreadable", "heal"):
+                blocked = o.get("file_after") == "unreadable"                         # (the content is untouched)
+            elif in_place and o.get("file_after") not in ("ok", "missing"):
+                spoilt = True
+            else:
+                on_file, spoilt, blocked = None, False, False   # replaced or deleted by someone else (or cut down to nothing)
         ever |= before                                   # present in the registry
-        if "file" in o and o.get("load_ok") and o["file"][0] == "ok":
-            ever |= {e["id"] for e in o["file"][1]}      # restored from persistence
+        if "file" in o and o.get("load_ok"):
+            if o["file"][0] == "ok":
+                ever |= {e["id"] for e in o["file"][1]}  # restored from persistence
+            else:
+                # the load reported success although the file cannot be loaded in full: the records the file does hold
+                # are "restored from persistence" all the same
+                held |= set(o.get("held", ())) - ever
+                ever |= set(o.get("held", ()))
         if op[0] in ("enter", "reload") and o.get("load_ok") and on_file is not None:
             saved |= on_file[0] - ever
             ever |= on_file[0]                           # restored from persistence: what the library saved there
@@ -510,10 +684,13 @@ def judge(corr: Corr, life: Life, obs) -> bool:
                 written()
             continue
 
+        damaged = on_file is not None and (spoilt or blocked)
+
         def case():
             return {"life": life.prefix(i + 1).to_json(), "step": i + 1, "outcome": o["out"],
                     "writes": [list(w) for w in o["writes"]], "registry_keys": lib.key_sorted(before),
                     "handed_out_earlier": list(handed), "ever_registered": lib.key_sorted(ever),
+                    "file_damaged_in_place": damaged,
                     "trace": _describe(life, obs, i + 1)}
 
         resp = [w for w in o["writes"] if w[0].split(";")[2:5] == ["3", "0", "4"]]
@@ -543,18 +720,26 @@ def judge(corr: Corr, life: Life, obs) -> bool:
         if not (1 <= nid <= 254) or nid in before or nid not in after:
             corr.violate("the id handed out is not fresh, not in 1..254, or not registered before the answer", case())
             return False
+        since = ("(every session since has ended without a failure reported by the context statement; the file was then "
+                 "damaged in place - what an interrupted save or a failing medium leaves, no other registry was put there - "
+                 "and a session started on it all the same instead of reporting the read error)" if damaged else
+                 "(every session since has ended without a failure reported by the context statement, nobody else touched "
+                 "the file)")
         if nid in earlier:
             corr.violate(f"id {nid} was handed out twice: first in an earlier run of the controller on this persistence file "
-                         "(every session since has ended without a failure reported by the context statement, nobody else "
-                         "touched the file), now again after a restart", case())
+                         f"{since}, now again after a restart", case())
             return False
         if nid in handed:
             corr.violate(f"id {nid} was handed out twice by the same gateway object", case())
             return False
         if nid in saved:
             corr.violate(f"id {nid} was handed out although it was registered (presented or restored) in an earlier run of the "
-                         "controller on this persistence file (every session since has ended without a failure reported by the "
-                         "context statement, nobody else touched the file)", case())
+                         f"controller on this persistence file {since}", case())
+            return False
+        if nid in held:
+            corr.violate(f"id {nid} was handed out although the persistence file this gateway object loaded holds a well-formed "
+                         "node record with that id (the file cannot be loaded in full, yet the load reported success: what it "
+                         "holds counts as restored from persistence)", case())
             return False
         if nid in ever:
             corr.violate(f"id {nid} was handed out although this gateway object had it registered before (restored from "
@@ -597,8 +782,15 @@ def model_plan(life: Life, obs):
                     lines.append(f"gnode {e['id']} {e['type']} {enc(e['pv'])} {enc(e['sn'])} {enc(e['sv'])} {e['bat']} {e['hb']} 0 "
                                  f"{gw.b(e['sleeping'])}")
                 n = len(entries)
-            elif not ok and status in ("missing", "bad") and not entries:
-                pass        # nothing could be restored: a file that is not there, or holds nothing valid
+            elif not ok and status in ("missing", "bad", "unreadable") and not entries:
+                pass        # nothing could be restored: a file that is not there, cannot be read, or holds nothing valid
+            elif not ok and status == "bad":
+                # the load raised at the first record that is not well-formed: the records before it are in the registry
+                # (the loop stores each record as it goes; the except clause does not undo that)
+                for e in entries:
+                    lines.append(f"gnode {e['id']} {e['type']} {enc(e['pv'])} {enc(e['sn'])} {enc(e['sv'])} {e['bat']} {e['hb']} 0 "
+                                 f"{gw.b(e['sleeping'])}")
+                n = len(entries)
             else:
                 break       # not expressible: oracle only from here
         lines.append("gdump")
@@ -660,6 +852,71 @@ def req(faults=(), node=255, child=255, uncaught=False):
 
 def present(n: int):
     return ("recv", f"{n};255;0;0;17;2.0", (), gw.DEFAULT_TIME)
+
+
+# the ways a file is damaged in place, one of each kind `Persistence.load` tells apart: no text at all, a strict prefix of
+# the JSON at every kind of offset (inside the first key, between records, just before the end), bytes that are no UTF-8,
+# text that is no JSON, JSON nested too deeply, JSON of the wrong shape, one record that is not a node among records that
+# are (each way, in each position), a path that cannot be read (two classes of OSError)
+DAMAGES = (
+    [{"damage": "cut", "at": a} for a in (1, 0.3, 0.6, -1, 0.85, -2, 0)]
+    + [{"damage": "bytes", "at": 0.5}, {"damage": "bytes", "at": 0}]
+    + [{"damage": "insert", "at": 0, "what": "text"}, {"damage": "insert", "at": 0.5, "what": "text"},
+       {"damage": "insert", "at": 0, "what": "deep"}, {"damage": "wrap"}]
+    + [{"damage": "entry", "which": j, "how": h} for j, h in ((0, "id"), (1, "number"), (-1, "extra"), (0, "null"), (1, "missing"),
+                                                             (2, "pv"), (1, "list"))]
+    + [{"damage": "unreadable", "as": "dir"}, {"damage": "unreadable", "as": "loop"}])
+
+
+def rand_damage(rng):
+    r = rng.random()
+    if r < 0.4:
+        return {"damage": "cut", "at": rng.choice((0, 1, 2, -1, -2, -3, rng.randint(3, 400), round(rng.random(), 3)))}
+    if r < 0.5:
+        return {"damage": "bytes", "at": rng.choice((0, -1, round(rng.random(), 3)))}
+    if r < 0.6:
+        return {"damage": "insert", "at": rng.choice((0, -1, round(rng.random(), 3))), "what": rng.choice(("text", "text", "deep"))}
+    if r < 0.65:
+        return {"damage": "wrap"}
+    if r < 0.88:
+        return {"damage": "entry", "which": rng.randint(0, 8), "how": rng.choice(ENTRY_DAMAGE)}
+    return {"damage": "unreadable", "as": rng.choice(("dir", "loop"))}
+
+
+def damage_lives(tier: str, files, mk, k: int) -> int:
+    """The persistence file is damaged between (or during) the runs of a controller, in every way a load tells apart; then
+    the controller is started again, or the same object is entered again, and ids are requested.  A session that starts
+    on such a file must not hand out what earlier runs handed out and saved; a context statement that reports the read
+    error hands out nothing (the requests are skipped), after which the file is repaired and the life goes on."""
+    thorough = tier == "thorough"
+    # (registries whose ids a run that has forgotten them reaches again within a few requests; thorough: the sparse ones too)
+    small = [None, [], [0, 1], [3, 1, 2], [0], [2]]
+    for j, d in enumerate(DAMAGES):
+        repair = [("file", {"damage": "heal"})] if d["damage"] == "unreadable" else []
+        for f0 in (small + [f for f in files if f not in small] if thorough else [small[j % len(small)]]):
+            back = ("file", list(f0 or []) + [60])
+            # the file is damaged after a run of the controller has ended (each way of ending in turn): what a crash in a
+            # later save, or the medium, leaves; restart; then the file is repaired (healed, or a backup) and entered again
+            mk(k, f0, [("enter",), req(), req(), *([present(40)] if j % 2 else []), ("exit", ENDS[j % len(ENDS)]), ("file", d),
+                       ("restart",), ("enter",), req(), req(), req(), req(), *(repair or [back]), ("enter",), req()])
+            k += 1
+            if thorough or j % 2 == 0:
+                # the damage happens during the second run (its scheduled save is interrupted), whose final save fails as
+                # well (the volume is away: reported); third run on what is left
+                mk(k, f0, [("enter",), req(), ("exit",), ("restart",), ("enter",), req(), ("file", d), ("offline",), ("exit",),
+                           ("online",), ("restart",), ("enter",), req(), req(), req(), req(), *(repair or [back]), ("enter",), req()])
+                k += 1
+            if thorough or j % 2 == 1:
+                # the same object is entered again on the damaged file (it still holds its registry), then a restart
+                mk(k, f0, [("enter",), req(), req(), ("exit",), ("file", d), ("enter",), req(), ("exit",), *(repair or [back]), ("restart",),
+                           ("enter",), req(), req()])
+                k += 1
+    # someone else puts a file there in which a record that is not a node stands among records that are (in each position)
+    for j, (ids, at) in enumerate((([0, 1, 2, 3], 1), ([1, 2, 5], 0), ([0, 1, 2, 3, 4], 2), ([3, 1, 2], 1), ([0, 2], 2))):
+        mk(k, files[j % len(files)], [("enter",), req(), ("exit",), ("file", {"half": ids, "at": at}), ("restart",), ("enter",), req(),
+                                      req(), req(), ("file", ids), ("enter",), req()])
+        k += 1
+    return k
 
 
 def systematic_lives(tier: str):
@@ -736,6 +993,7 @@ def systematic_lives(tier: str):
         # someone else restores a backup between the runs: nothing is promised either
         mk(k, f0, [("enter",), *first, ("exit", h1), ("file", f0), ("restart",), ("enter",), req(), req()])
         k += 1
+    k = damage_lives(tier, files, mk, k)
     # around the upper bound: the ids run out in a later session
     for f0 in ([0, 251], [0, 252], [250], [0, 253]):
         mk(k, f0, [("enter",), req(), req(), ("offline",), ("exit",), ("online",), ("enter",), req(), req(), req()])
@@ -770,14 +1028,39 @@ def gen_life(rng, version: str) -> Life:
     fstate, fids = ("missing", set()) if file0 is None else ("good", set(file0))
     ops = life.ops
 
+    aside = False           # the file is kept aside (the path cannot be read for the time being)
+
     def new_file():
-        nonlocal fstate, fids
+        nonlocal fstate, fids, aside
+        r = rng.random()
+        if aside and r < 0.5:
+            ops.append(("file", {"damage": "heal"}))
+            fstate, aside = "good", False
+            return
+        if fstate == "good" and r < 0.22:
+            # the file as it stands is damaged in place
+            spec = rand_damage(rng)
+            ops.append(("file", spec))
+            aside = spec["damage"] == "unreadable"
+            fstate = "bad"
+            if not inside and online and rng.random() < 0.6:
+                # the controller is started (or the object entered) on what is left, and ids are requested: the picture
+                # here is that of a context statement that reports the read error (the requests are then skipped)
+                if rng.random() < 0.6:
+                    ops.append(("restart",))
+                    reg.clear()
+                ops.append(("enter",))
+                ops.extend(req() for _ in range(rng.randint(1, 4)))
+            return
+        aside = False
         r = rng.random()
         if r < 0.12:
             spec = {"bad": rng.choice(["garbage", "list", "entry"])}
             fstate, fids = "bad", set()
         elif r < 0.18:
             spec = {"half": shape()}
+            if rng.random() < 0.5:
+                spec["at"] = rng.randint(0, len(spec["half"]))
             fstate, fids = "bad", set()
         elif r < 0.3:
             spec = None
@@ -915,6 +1198,15 @@ def run(corr: Corr, ctx) -> None:
                            + (e["exit_out"] if e["exit_ok"] else e["exit_out"].split(":")[-1]))
             if op[0] in ("enter", "exit", "load", "reload", "save") and not o["skipped"]:
                 corr.count(f"life-outcome:{op[0]}:" + (o["out"] if o["out"] == "ok" else o["out"].split(":")[-1]))
+            if op[0] == "file":
+                spec = op[1]
+                what = ("damaged in place: " + spec["damage"] + (" " + spec["how"] if "how" in spec else "")
+                        if isinstance(spec, dict) and "damage" in spec else
+                        "deleted" if spec is None else "replaced by a file that cannot be loaded" if isinstance(spec, dict) else "replaced")
+                corr.count(f"life-file {what} -> read as {o.get('file_after')}")
+            if op[0] in ("enter", "reload") and "file" in o and o["file"][0] not in ("ok", "missing"):
+                corr.count(f"life:{op[0]} on a file that cannot be loaded in full -> "
+                           + ("started / returned" if o.get("load_ok") else o["out"].split(":")[0]))
             lacks = False
             if "file" in o and o.get("load_ok"):
                 lacks = bool(set(o["before"]) - {e["id"] for e in o["file"][1]})
@@ -927,8 +1219,10 @@ def run(corr: Corr, ctx) -> None:
                 corr.count("life:id request after such a load")
             if is_req and restarted:
                 corr.count("life:id request after a restart of the controller")
-            nt = lacks or (is_req and (loaded_less or restarted)) or bool(o.get("ended") and o["ended"]["left_by"])
+            nt = lacks or (is_req and (loaded_less or restarted)) or bool(o.get("ended") and o["ended"]["left_by"]) or (
+                op[0] in ("enter", "reload") and "file" in o and o["file"][0] not in ("ok", "missing"))
             key = ("life", life.version, op[0], str(op[1:3]), tuple(o["before"]), loaded_less, restarted,
+                   o["file"][0] if "file" in o else None,
                    json.dumps(o.get("ended"), sort_keys=True))
             corr.case(hash(key), nt, {"life-op": list(op), "registry_before": lib.key_sorted(o["before"]), "outcome": o["out"],
                                       "writes": [w[0] for w in o["writes"]]} if nt and op[0] == "recv" else None)
